@@ -178,3 +178,34 @@ def pats07 : List (Pat × S07) → List (String × Py)
 termination_by structural ps => ps
 end
 end Api
+
+namespace Api
+/-! ## vocabulary: no 2020-12 keyword (`prefixItems`) at any depth of an older-dialect schema -/
+mutual
+def S07.clean : S07 → Bool
+  | .mk _ _ _ _ one arr addi kept props _ addl pats anyOf _ =>
+    kept.isNone && cleanI one && cleanO arr && cleanI addi && cleanP props && cleanI addl && cleanPat pats && cleanL anyOf
+termination_by structural s => s
+def cleanI : Option (Bool ⊕ S07) → Bool
+  | Option.none => true
+  | some (.inl _) => true
+  | some (.inr s) => s.clean
+termination_by structural o => o
+def cleanO : Option (List S07) → Bool
+  | Option.none => true
+  | some l => cleanL l
+termination_by structural o => o
+def cleanL : List S07 → Bool
+  | [] => true
+  | s :: ss => s.clean && cleanL ss
+termination_by structural l => l
+def cleanP : List (String × S07) → Bool
+  | [] => true
+  | (_, s) :: ps => s.clean && cleanP ps
+termination_by structural l => l
+def cleanPat : List (Pat × S07) → Bool
+  | [] => true
+  | (_, s) :: ps => s.clean && cleanPat ps
+termination_by structural l => l
+end
+end Api
